@@ -6,7 +6,8 @@
 //@harness name=end_sets_pitch tier=quick label=proved props=C07
 //@harness name=rnd_range_and_lcg tier=quick label=proved props=C07 timeout=600
 //@harness name=mseq_step tier=quick label=proved props=C07
-//@harness name=new_is_fixed_seed tier=quick label=bounded(nlpf<=3) props=C07
+//@harness name=new_is_fixed_seed tier=quick label=bounded(nlpf<=3) props=C07,C01
+//@harness name=ring_buffer_step_asymmetric_lpf tier=quick label=bounded(nlpf=3,concrete-asymmetric-filter) props=C07 timeout=600
 //@harness name=ring_buffer_step_idx0 tier=thorough label=bounded(nlpf=3) props=C07 timeout=600
 //@harness name=ring_buffer_step_idx2 tier=thorough label=bounded(nlpf=3) props=C07 timeout=600
 use super::*;
@@ -127,7 +128,8 @@ fn mseq_step() {
     assert!((m.x >> 31) == (b0 ^ b28));
 }
 
-/// every vocoder starts from the same noise state (fixed seed) and a zeroed ring buffer
+/// every vocoder starts from the same noise state (fixed seed) and a zeroed ring buffer of exactly nlpf slots
+/// (C01: a two-stream voice has nlpf == 0 and must take the no-low-pass path of `get`, which never indexes lpf)
 #[kani::proof]
 #[kani::unwind(5)]
 fn new_is_fixed_seed() {
@@ -144,10 +146,10 @@ fn new_is_fixed_seed() {
 
 /// mixed excitation, one sample, low-pass h of length 3 (centre 1): slot (index+i) gains
 /// noise*(delta(i,1) - h[i]) + pulse*h[i]; the oldest slot is output and cleared; index advances
-fn ring_buffer_step(idx: usize) {
+fn ring_buffer_step(idx: usize) { ring_buffer_step_with(idx, kani::any()); }
+fn ring_buffer_step_with(idx: usize, h: [f64; 3]) {
     let mut e = Excitation::new(3);
     let buf: [f64; 3] = kani::any();
-    let h: [f64; 3] = kani::any();
     e.ring_buffer.buffer = vec![buf[0], buf[1], buf[2]];
     e.ring_buffer.index = idx;
     e.gauss = false;
@@ -179,3 +181,10 @@ fn ring_buffer_step_idx0() { ring_buffer_step(0); }
 #[kani::unwind(5)]
 #[kani::stub(f64::sqrt, uf_sqrt)]
 fn ring_buffer_step_idx2() { ring_buffer_step(2); }
+
+/// the quick-tier counterpart: a concrete filter that is NOT mirror-symmetric (tap i shapes slot index+i, not
+/// slot index+len-1-i), every buffer content, write position 1
+#[kani::proof]
+#[kani::unwind(5)]
+#[kani::stub(f64::sqrt, uf_sqrt)]
+fn ring_buffer_step_asymmetric_lpf() { ring_buffer_step_with(1, [0.25, 0.5, 0.125]); }
